@@ -25,6 +25,67 @@ EXPLANATION = ('Dominance rules with strength over the CFG of lz4::decompress, r
                'produced equal a reference decoder\'s and that compressed fonts shape identically are run-time facts, not decided.')
 FLOORS = {'COPYGUARD': 5, 'BOOKKEEPING': 2, 'SEQGUARD': 3, 'LZCONST': 1, 'DECOMPRESS': 5}
 
+import re
+
+
+def _renamer(ren):
+    ren = {k: v for k, v in ren.items() if k and k != v}
+
+    def f(text):
+        if not ren or text is None:
+            return text
+        return re.sub(r'(?<![\w.>])(%s)\b' % '|'.join(re.escape(k) for k in sorted(ren, key=len, reverse=True)), lambda m: ren[m.group(1)], text)
+    return f
+
+
+def _name(fn, n):
+    n = fn.strip_all_casts(n)
+    return n['d'].split('::')[-1] if n['k'] == 'DeclRefExpr' and n.get('vid') is not None else None
+
+
+def decompress_roles(fx):
+    """current name -> canonical role name for lz4::decompress, from positions and definitions (not from what things are called)"""
+    fn = fx.one('lz4::decompress')
+    ps = fn.f['params']
+    if len(ps) != 4:
+        raise AnalysisBroken('lz4::decompress no longer has the parameters (in, in_size, out, out_size)')
+    ren = dict(zip([p['n'] for p in ps], ['in', 'in_size', 'out', 'out_size']))
+    rs = calls_in(fn, '(anonymous namespace)::read_sequence')
+    if not rs or len(rs[0]['args']) != 6:
+        raise AnalysisBroken('lz4::decompress: read_sequence(src, end, literal, literal_len, match_len, match_dist) call not found')
+    for a, c in zip(rs[0]['args'], ['src', 'src_end', 'literal', 'literal_len', 'match_len', 'match_dist']):
+        nm = _name(fn, a)
+        if nm:
+            ren[nm] = c
+    copies = [e for e in calls_in(fn) if (e.get('fq') or '').split('::')[-1] in ('overrun_copy', 'safe_copy', 'fast_copy')]
+    dst = None
+    for e in copies:
+        dst = dst or _name(fn, e['args'][0])
+    if dst:
+        ren[dst] = 'dst'
+    inv = {v: k for k, v in ren.items()}
+    for _, e in fn.elements():
+        if e['k'] != 'DeclStmt':
+            continue
+        for d in e['decls']:
+            if d.get('init') is None or d.get('dk') != 'Var':
+                continue
+            x = fn.strip_all_casts(d['init'])
+            if x['k'] == 'BinaryOperator' and x['op'] in ('+', '-'):
+                l, r = _name(fn, x['c'][0]), _name(fn, x['c'][1])
+                if x['op'] == '+' and l == dst and r == inv.get('out_size'):
+                    ren[d['n']] = 'dst_end'
+                if x['op'] == '-' and l == dst and r == inv.get('match_dist'):
+                    ren[d['n']] = 'pcpy'
+    return fn, _renamer(ren)
+
+
+def positional(fn, canonical):
+    ps = fn.f['params']
+    if len(ps) != len(canonical):
+        raise AnalysisBroken('%s no longer has the parameters %s' % (fn.q, canonical))
+    return dict(zip([p['n'] for p in ps], canonical))
+
 
 def _has(fs, lhs, op, rhs):
     for f in fs:
@@ -36,14 +97,15 @@ def _has(fs, lhs, op, rhs):
 
 
 def copyguard(run, fx):
-    fn = fx.one('lz4::decompress')
+    fn, cn = decompress_roles(fx)
+    cf = lambda fs: [(cn(f[0]), f[1], cn(f[2])) for f in fs]
     copies = [e for e in calls_in(fn) if (e.get('fq') or '').split('::')[-1] in ('overrun_copy', 'safe_copy', 'fast_copy')]
     if len(copies) != 4:
         run.broken('COPYGUARD', 'copy sites', 'expected 4 copy calls (literal, 2 match variants, final literal), found %d' % len(copies), fn.where())
     for e in sorted(copies, key=lambda x: (x['ln'], x['col'])):
         name = e['fq'].split('::')[-1]
-        args = [fn.render(fn.strip_all_casts(a)) for a in e['args']]
-        fs = [f[:3] for f in dom.facts_at(fn, e['i'])]
+        args = [cn(fn.render(fn.strip_all_casts(a))) for a in e['args']]
+        fs = cf(dom.facts_at(fn, e['i']))
         n = args[2]
         inst = '%s(%s) @%s' % (name, ', '.join(args), e['ln'])
         need = []
@@ -72,7 +134,7 @@ def copyguard(run, fx):
     rs = calls_in(fn, '(anonymous namespace)::read_sequence')
     if not rs:
         raise AnalysisBroken('lz4::decompress: read_sequence call not found')
-    fs = [f[:3] for f in dom.facts_at(fn, rs[0]['i'])]
+    fs = cf(dom.facts_at(fn, rs[0]['i']))
     need = [('out_size', '>', 'in_size'), ('in_size', '>=', 'MINSRCSIZE'), ('src', '<', 'src_end'), ('dst', '<', 'dst_end')]
     missing = [w for w in need if not any(_match(f, w) for f in fs)]
     if missing:
@@ -81,6 +143,7 @@ def copyguard(run, fx):
         run.held('COPYGUARD', 'entry tests', fn.loc(rs[0]), 'out_size > in_size, in_size >= MINSRCSIZE, no pointer wrap')
 
 
+DEFS = {'pcpy': '(dst-match_dist)', 'dst_end': '(dst+out_size)', 'src_end': '(src+in_size)'}
 CONSTS = {'LASTLITERALS': '5', 'MINSRCSIZE': '13', 'MINMATCH': '4', 'MINCODA': '6'}      # verified by LZCONST
 
 
@@ -88,6 +151,8 @@ def _norm(s):
     s = s.replace(' ', '').replace('(anonymousnamespace)::', '')
     for k, v in CONSTS.items():
         s = s.replace(k, v)
+    for k, v in DEFS.items():         # const locals stand for their definitions (facts come in both spellings)
+        s = re.sub(r'(?<![\w.>])%s\b' % k, v, s)
     return s
 
 
@@ -112,15 +177,15 @@ def _match(f, w):
 
 
 def bookkeeping(run, fx):
-    fn = fx.one('lz4::decompress')
+    fn, cn = decompress_roles(fx)
     copies = sorted([e for e in calls_in(fn) if (e.get('fq') or '').split('::')[-1] in ('overrun_copy', 'safe_copy')], key=lambda x: (x['ln'], x['col']))
-    decs = [e for _, e in fn.elements() if e['k'] == 'CompoundAssignOperator' and e['op'] == '-=' and fn.render(fn.N(e['c'][0])) == 'out_size']
+    decs = [e for _, e in fn.elements() if e['k'] == 'CompoundAssignOperator' and e['op'] == '-=' and cn(fn.render(fn.N(e['c'][0]))) == 'out_size']
     groups = {}
     for c in copies:
-        groups.setdefault(fn.render(fn.strip_all_casts(c['args'][2])), []).append(c)
+        groups.setdefault(cn(fn.render(fn.strip_all_casts(c['args'][2]))), []).append(c)
     for n, cs in groups.items():
         inst = 'out_size -= %s' % n
-        ds = [d for d in decs if fn.render(fn.strip_all_casts(d['c'][1])) == n]
+        ds = [d for d in decs if cn(fn.render(fn.strip_all_casts(d['c'][1]))) == n]
         ok = bool(ds)
         for c in cs:
             cb = fn.block_of[c['i']]
@@ -134,7 +199,7 @@ def bookkeeping(run, fx):
                         continue
                     seen.add(b)
                     c2 = fn.term_cond(b)
-                    if (c2 is not None and 'out_size' in fn.render(c2)) or b == fn.exit:
+                    if (c2 is not None and 'out_size' in cn(fn.render(c2))) or b == fn.exit:
                         ok = False
                         break
                     st.extend(fn.succs(b))
@@ -145,13 +210,23 @@ def bookkeeping(run, fx):
                          'against an output budget that is too large' % (n, n))
 
 
+def _ret_facts(fn):
+    """facts that hold on every path to a `return true` (the if-form of `return <test>`)"""
+    out = []
+    for _, e in fn.elements():
+        if e['k'] == 'ReturnStmt' and e.get('c') and fn.strip_all_casts(e['c'][0]).get('v') == 1:
+            out += [f[:3] for f in dom.facts_at(fn, e['i'])]
+    return out
+
+
 def seqguard(run, fx):
     rs = fx.one('(anonymous namespace)::read_sequence')
+    cn = _renamer(positional(rs, ['src', 'end', 'literal', 'literal_len', 'match_len', 'match_dist']))
     # the two offset reads: `*src++` after the literal run
-    reads = [e for _, e in rs.elements() if e['k'] == 'UnaryOperator' and e['op'] == '*' and 'src++' in rs.render(e).replace(' ', '')]
+    reads = [e for _, e in rs.elements() if e['k'] == 'UnaryOperator' and e['op'] == '*' and 'src++' in cn(rs.render(e)).replace(' ', '')]
     guarded = 0
     for e in reads:
-        fs = [f[:3] for f in dom.facts_at(rs, e['i'])]
+        fs = [(cn(f[0]), f[1], cn(f[2])) for f in dom.facts_at(rs, e['i'])]
         if any(_match(f, ('src', '<=', '(end - 2)')) or (_norm(f[0]) == 'src' and f[1] == '<=' and 'end' in f[2]) for f in fs) and \
                 any(_norm(f[0]) == 'src' and f[1] == '>=' and _norm(f[2]) == 'literal' for f in fs):
             guarded += 1
@@ -161,18 +236,20 @@ def seqguard(run, fx):
         run.violated('SEQGUARD', 'offset bytes', rs.where(), 'read_sequence reads the two match-offset bytes without the dominating `src > end - sizeof(u16) || src < literal` '
                      'rejection (%d of %d reads guarded): reads beyond the compressed input' % (guarded, len(reads)))
     rets = [e for _, e in rs.elements() if e['k'] == 'ReturnStmt']
-    okc = any('MINCODA' in rs.render(e) and '<=' in rs.render(e) for e in rets)
+    okc = any(re.search(r'src <= \(end - (MINCODA|6)\)', cn(rs.render(e, resolve=True)).replace('(anonymous namespace)::', '')) for e in rets) or \
+        any(_match((cn(f[0]), f[1], cn(f[2])), ('src', '<=', '(end - 6)')) for f in _ret_facts(rs))
     if okc:
         run.held('SEQGUARD', 'MINCODA', rs.where(), 'returns src <= end - MINCODA')
     else:
         run.violated('SEQGUARD', 'MINCODA', rs.where(), 'read_sequence no longer requires MINCODA bytes to remain after a sequence')
     rl = fx.one('(anonymous namespace)::read_literal')
-    rd = [e for _, e in rl.elements() if e['k'] == 'UnaryOperator' and e['op'] == '*' and 's++' in rl.render(e).replace(' ', '')]
+    ln = _renamer(positional(rl, ['s', 'e', 'l']))
+    rd = [e for _, e in rl.elements() if e['k'] == 'UnaryOperator' and e['op'] == '*' and 's++' in ln(rl.render(e)).replace(' ', '')]
     ok = bool(rd)
     for e in rd:
         b = rl.block_of[e['i']]
         # every path into the do-body passes s != e: initial `l == 15 && s != e`, loop `b == 0xff && s != e`
-        if not dom.must_pass(rl, rl.entry, b, lambda f: _norm(f[0]) == 's' and f[1] == '!=' and _norm(f[2]) == 'e', start_after=True):
+        if not dom.must_pass(rl, rl.entry, b, lambda f: _norm(ln(f[0])) == 's' and f[1] == '!=' and _norm(ln(f[2])) == 'e', start_after=True):
             ok = False
     if ok:
         run.held('SEQGUARD', 'length bytes', rl.where(), 'every *s++ is preceded by s != e')
